@@ -236,50 +236,8 @@ def analyse_result_arm(body, env, which, label):
                 raise G.Unrecognised(f"{label}: pass-through error does not carry the sub-message error text")
             nf.update({"kind": "passthrough_err", "err_into": had, "crate_paths": [A.expr_path_str(ge["func"])]})
             return nf
-        # ok pass-through
-        resp_name = None
-        events_ok = data_ok = False
-        crate_paths = []
-        for s in stmts:
-            if s["k"] == "let" and s["pat"]["k"] == "ident" and s["init"] is not None and resp_name is None:
-                init = A.strip_expr(s["init"])
-                if init["k"] == "mcall" and init["method"] == "add_events" and len(init["args"]) == 1:
-                    r = A.strip_expr(init["recv"])
-                    if r["k"] == "call" and not r["args"] and A.path_ids(r["func"])[-2:] == ["Response", "new"] \
-                            and env.prov(init["args"][0]) == ("field", ("ok-resp",), "events"):
-                        resp_name = s["pat"]["name"]
-                        events_ok = True
-                        crate_paths.append(A.expr_path_str(r["func"]))
-                        continue
-                raise G.Unrecognised(f"{label}: pass-through does not start with Response::new().add_events(<sub-response events>)")
-            if s["k"] == "expr":
-                e = A.strip_expr(s["expr"])
-                if e["k"] == "if" and e["else"] is None:
-                    c = A.strip_expr(e["cond"])
-                    if c["k"] == "mcall" and c["method"] == "is_some" and env.prov(c["recv"]) == ("field", ("ok-resp",), "data"):
-                        st2, t2 = A.block_parts(e["then"])
-                        asg = A.strip_expr(st2[0]["expr"]) if len(st2) == 1 and st2[0]["k"] == "expr" else None
-                        if asg and asg["k"] == "assign" and A.path_ids(asg["left"]) == [resp_name]:
-                            r = A.strip_expr(asg["right"])
-                            if r["k"] == "mcall" and r["method"] == "set_data" and A.path_ids(r["recv"]) == [resp_name]:
-                                a = A.strip_expr(r["args"][0])
-                                if a["k"] == "mcall" and a["method"] in ("unwrap", "expect") and env.prov(a["recv"]) == ("field", ("ok-resp",), "data"):
-                                    data_ok = True
-                                    continue
-                    if c["k"] == "letexpr":
-                        # if let Some(d) = sub_msg_resp.data { resp = resp.set_data(d) }
-                        if env.prov(c["expr"]) == ("field", ("ok-resp",), "data"):
-                            sets = A.find_all(e["then"], lambda n: isinstance(n, dict) and n.get("x") and n.get("k") == "mcall" and n["method"] == "set_data")
-                            if len(sets) == 1:
-                                data_ok = True
-                                continue
-                raise G.Unrecognised(f"{label}: unrecognised statement in pass-through arm")
-            raise G.Unrecognised(f"{label}: unrecognised statement in pass-through arm")
-        t = A.strip_expr(tail) if tail else None
-        if not (t and t["k"] == "call" and A.last_seg(t["func"]) == "Ok" and len(t["args"]) == 1 and A.path_ids(A.strip_expr(t["args"][0])) == [resp_name]):
-            raise G.Unrecognised(f"{label}: pass-through does not end with Ok(resp)")
-        nf.update({"kind": "passthrough_ok", "events": events_ok, "data": data_ok, "crate_paths": crate_paths})
-        return nf
+        # ok pass-through: abstract interpretation of a "response term"
+        return passthrough_ok(stmts, tail, env, label, nf)
     # ------------- handler forms
     if len(calls_total) != 1:
         raise G.Unrecognised(f"{label}: {len(calls_total)} handler calls")
@@ -345,6 +303,108 @@ def analyse_result_arm(body, env, which, label):
     return nf
 
 
+RESP_EVENTS = ("field", ("ok-resp",), "events")
+RESP_DATA = ("field", ("ok-resp",), "data")
+
+
+def passthrough_ok(stmts, tail, env, label, nf):
+    """The documented default for an uncovered success: Ok(Response::new() + events of the sub-response + its data if present).
+    Accepted spellings: builder chains, `let mut resp` + conditional `set_data`, `match data { Some(d) => r.set_data(d), None => r }`,
+    with or without destructuring the sub-response first."""
+    locs = {}
+    crate_paths = []
+
+    def term(e, env):
+        e = A.strip_expr(e)
+        if e["k"] == "call" and not e["args"] and A.path_ids(e["func"]) and A.path_ids(e["func"])[-2:] == ["Response", "new"]:
+            crate_paths.append(A.expr_path_str(e["func"]))
+            return {"events": None, "data": None}
+        if e["k"] == "path" and len(e["path"]["segs"]) == 1 and e["path"]["segs"][0]["id"] in locs:
+            return dict(locs[e["path"]["segs"][0]["id"]])
+        if e["k"] == "mcall" and e["method"] == "add_events" and len(e["args"]) == 1:
+            t = term(e["recv"], env)
+            if t is None or t["events"] is not None:
+                return None
+            t["events"] = env.prov(e["args"][0])
+            return t
+        if e["k"] == "mcall" and e["method"] == "set_data" and len(e["args"]) == 1:
+            t = term(e["recv"], env)
+            if t is None or t["data"] is not None:
+                return None
+            a = A.strip_expr(e["args"][0])
+            if a["k"] == "mcall" and a["method"] in ("unwrap", "expect"):
+                t["data"] = ("unwrapped", env.prov(a["recv"]))
+            else:
+                t["data"] = ("value", env.prov(a))
+            return t
+        if e["k"] == "match":
+            d = env.prov(e["expr"])
+            some = none = None
+            for arm in e["arms"]:
+                p = arm["pat"]
+                if p["k"] == "tuplestruct" and p["path"]["segs"][-1]["id"] == "Some" and p["elems"][0]["k"] == "ident":
+                    env2 = Env(env)
+                    env2[p["elems"][0]["name"]] = ("some-of", d)
+                    some = term(arm["body"], env2)
+                elif (p["k"] == "ident" and p["name"] == "None") or (p["k"] == "path" and p["path"]["segs"][-1]["id"] == "None") or p["k"] == "wild":
+                    none = term(arm["body"], env)
+            if some is None or none is None:
+                return None
+            if none["data"] is None and some["events"] == none["events"] and some["data"] == ("value", ("some-of", d)):
+                return {"events": none["events"], "data": ("if-some", d)}
+            return None
+        return None
+
+    for s in stmts:
+        if s["k"] == "let" and s["init"] is not None:
+            p = s["pat"]
+            if p["k"] == "struct" and p["path"]["segs"][-1]["id"] == "SubMsgResponse" and env.prov(s["init"]) == ("ok-resp",):
+                for fl in p["fields"]:
+                    if fl["pat"]["k"] == "ident":
+                        env[fl["pat"]["name"]] = ("field", ("ok-resp",), fl["member"])
+                continue
+            if p["k"] == "ident":
+                t = term(s["init"], env)
+                if t is None:
+                    raise G.Unrecognised(f"{label}: pass-through: `let {p['name']}` is not a response term")
+                locs[p["name"]] = t
+                continue
+            raise G.Unrecognised(f"{label}: pass-through: unrecognised let")
+        if s["k"] == "expr":
+            e = A.strip_expr(s["expr"])
+            if e["k"] == "if" and e["else"] is None:
+                c = A.strip_expr(e["cond"])
+                guard = None
+                env2 = env
+                if c["k"] == "mcall" and c["method"] == "is_some" and not c["args"]:
+                    guard = env.prov(c["recv"])
+                elif c["k"] == "letexpr" and c["pat"]["k"] == "tuplestruct" and c["pat"]["path"]["segs"][-1]["id"] == "Some" and c["pat"]["elems"][0]["k"] == "ident":
+                    guard = env.prov(c["expr"])
+                    env2 = Env(env)
+                    env2[c["pat"]["elems"][0]["name"]] = ("some-of", guard)
+                st2, t2 = A.block_parts(e["then"])
+                asg = A.strip_expr(st2[0]["expr"]) if len(st2) == 1 and st2[0]["k"] == "expr" and t2 is None else None
+                if guard is not None and asg is not None and asg["k"] == "assign":
+                    tgt = A.path_ids(A.strip_expr(asg["left"]))
+                    if tgt and len(tgt) == 1 and tgt[0] in locs:
+                        t = term(asg["right"], env2)
+                        base = locs[tgt[0]]
+                        if t is not None and base["data"] is None and t["events"] == base["events"] and t["data"] in (("unwrapped", guard), ("value", ("some-of", guard))):
+                            locs[tgt[0]] = {"events": base["events"], "data": ("if-some", guard)}
+                            continue
+            raise G.Unrecognised(f"{label}: unrecognised statement in pass-through arm")
+        raise G.Unrecognised(f"{label}: unrecognised statement in pass-through arm")
+    t = A.strip_expr(tail) if tail else None
+    if not (t and t["k"] == "call" and A.last_seg(t["func"]) == "Ok" and len(t["args"]) == 1):
+        raise G.Unrecognised(f"{label}: pass-through does not end with Ok(..)")
+    r = term(t["args"][0], env)
+    if r is None:
+        raise G.Unrecognised(f"{label}: pass-through result is not a response term")
+    nf.update({"kind": "passthrough_ok", "events": r["events"] == RESP_EVENTS, "data": r["data"] == ("if-some", RESP_DATA), "crate_paths": crate_paths,
+               "found": {"events": r["events"], "data": r["data"]}})
+    return nf
+
+
 # ------------------------------------------------------------------ SubMsgMethods
 
 def analyse_submsg(g):
@@ -373,10 +433,27 @@ def analyse_builder(f, recv):
     params = [(i["pat"].get("name"), A.type_str(i["ty"])) for i in f["inputs"] if not i.get("recv")]
     stmts, tail = A.block_parts(f["body"])
     nf = {"params": params, "fn": f}
+    env = {n: ("param", n) for n, _ in params}
+
+    def prov(e):
+        e = A.strip_expr(e)
+        ids = A.path_ids(e)
+        if ids and len(ids) == 1:
+            return env.get(ids[0], ("free", ids[0]))
+        return ("expr", e["k"])
+
     payload = None
     for s in stmts:
-        if s["k"] == "let" and s["pat"]["k"] == "ident" and s["pat"]["name"] == "payload" and s["init"] is not None:
+        if s["k"] == "let" and s["init"] is not None and s["pat"]["k"] == "struct" and s["pat"]["path"]["segs"][-1]["id"] == "SubMsg" \
+                and A.path_ids(A.strip_expr(s["init"])) == ["self"]:
+            # `let SubMsg { msg, gas_limit, .. } = self;` : the bindings are the receiver's own fields (they may shadow parameters!)
+            for fl in s["pat"]["fields"]:
+                if fl["pat"]["k"] == "ident":
+                    env[fl["pat"]["name"]] = ("self-field", fl["member"])
+            continue
+        if s["k"] == "let" and s["pat"]["k"] == "ident" and s["init"] is not None:
             init = A.strip_expr(s["init"])
+            name = s["pat"]["name"]
             if init["k"] == "try":
                 c = A.strip_expr(init["expr"])
                 if c["k"] == "call" and A.last_seg(c["func"]) == "to_json_binary" and len(c["args"]) == 1:
@@ -385,17 +462,24 @@ def analyse_builder(f, recv):
                         raise G.Unrecognised(f"builder {f['name']}: to_json_binary argument not a reference")
                     v = A.strip_expr(a["expr"])
                     if v["k"] == "tuple":
-                        payload = {"mode": "json-tuple", "names": [A.path_ids(A.strip_expr(x))[0] if A.path_ids(A.strip_expr(x)) else None for x in v["elems"]]}
+                        val = {"mode": "json-tuple", "names": [A.path_ids(A.strip_expr(x))[0] if A.path_ids(A.strip_expr(x)) else None for x in v["elems"]],
+                               "provs": [prov(x) for x in v["elems"]]}
                     elif v["k"] == "path":
-                        payload = {"mode": "json-single", "names": [A.path_ids(v)[0]]}
+                        val = {"mode": "json-single", "names": [A.path_ids(v)[0]], "provs": [prov(v)]}
                     else:
                         raise G.Unrecognised(f"builder {f['name']}: encoded payload expression")
+                    env[name] = ("encoded", tuple(val["provs"]))
+                    if name == "payload":
+                        payload = val
+                    else:
+                        nf.setdefault("encoded_locals", {})[name] = val
                     continue
             if init["k"] == "path" and len(init["path"]["segs"]) == 1:
-                payload = {"mode": "raw", "names": [A.path_ids(init)[0]]}
+                env[name] = prov(init)
+                if name == "payload":
+                    payload = {"mode": "raw", "names": [A.path_ids(init)[0]], "provs": [prov(init)]}
                 continue
         raise G.Unrecognised(f"builder {f['name']}: unexpected statement")
-    nf["payload"] = payload
     t = A.strip_expr(tail) if tail else None
     if not (t and t["k"] == "call" and A.last_seg(t["func"]) == "Ok" and len(t["args"]) == 1):
         raise G.Unrecognised(f"builder {f['name']}: tail is not Ok(..)")
@@ -407,13 +491,21 @@ def analyse_builder(f, recv):
         e = A.strip_expr(fl["expr"])
         if e["k"] == "path":
             ids = A.path_ids(e)
-            fields[fl["member"]] = ("path", ids)
+            if len(ids) == 1 and ids[0] in env and env[ids[0]][0] == "self-field":
+                fields[fl["member"]] = ("self-field", env[ids[0]][1])
+            elif len(ids) == 1 and ids[0] in env and env[ids[0]][0] == "encoded" and fl["member"] == "payload":
+                fields[fl["member"]] = ("path", ["payload"])
+                if payload is None:
+                    payload = nf.get("encoded_locals", {}).get(ids[0])
+            else:
+                fields[fl["member"]] = ("path", ids)
         elif e["k"] == "mcall" and e["method"] == "into" and A.path_ids(e["recv"]) == ["self"]:
             fields[fl["member"]] = ("self.into",)
         elif e["k"] == "call" and A.unconv(e)[0] and A.path_ids(A.strip_expr(A.unconv(e)[1])) == ["self"]:
             fields[fl["member"]] = ("self.into",)
         else:
             fields[fl["member"]] = ("expr", e["k"])
+    nf["payload"] = payload
     nf["fields"] = fields
     nf["rest"] = A.path_ids(A.strip_expr(lit["rest"])) if lit.get("rest") is not None else None
     return nf
